@@ -11,25 +11,34 @@ LEVEL_TEXT = (
     "with the fuel reduce supplies it reduces to itself, so reduce(reduce(e)) = reduce(e); (3) the hypothesis is what "
     "the pipeline maintains: each substitution stage given values and reduce itself keep templates well-formed, so "
     "interleaving reductions anywhere in a schedule changes nothing that a later reduction would not also produce; "
-    "(4) without the hypothesis the law fails (proved witness Set(Add(1,2))). Clauses involving the compiler pass and "
-    "the equality of final templates across schedules are decided per generated template by running every stage "
+    "(4) without the hypothesis the law fails (proved witness Set(Add(1,2))); (5) reduction commutes with every stage: "
+    "for a well-formed, sealed expression e, if the reducer answers r on e, a on stage(e) and b on stage(r) then a = b, "
+    "for arguments, input UTxOs and the fee alike and for every fuel (C07_reduce_commutes_with_stage, proved once over "
+    "the laws IsStage that the three stages satisfy), hence along chains of stages (C07_two_stages), and the reducer's "
+    "answer does not depend on its fuel (reduceF_det). Clauses involving the compiler pass and "
+    "the equality of final templates across whole-transaction schedules are decided per generated template by running every stage "
     "permutation x every reduce placement on the real crates and comparing canonical results, with the model's "
     "apply/reduce/compiler-pass tied by correspondence on the same cases and the well-formedness hypothesis evaluated "
     "on every template and applied template."
 )
 LEVEL_NOTE = (
-    "Partial: that two schedules with different reduce placements end in the SAME template (confluence of reduce with "
-    "the substitutions, and the compiler pass) is explored exhaustively per case (up to 384 schedules), not a theorem. "
+    "Partial: confluence of reduce with the three substitution stages is a theorem for expressions when all the "
+    "reductions involved succeed (that an error on one schedule is an error on the others is explored per case, and is "
+    "where the known finding lives); the compiler pass in a schedule is explored exhaustively per case (up to 384 "
+    "schedules), not a theorem; the hypotheses WF and Sealed are evaluated on every generated template (tags wf-holds, "
+    "sealed-holds). "
     "Known finding C07-query-error-masked is reported, not suppressed silently."
 )
 PROP = "C07"
-LEAN_TARGETS = ["Tx3Proofs.C07", "Tx3Proofs.C07Reduce"]
-AUDIT_MODULES = ["Tx3Proofs.C07", "Tx3Proofs.C07Reduce"]
+LEAN_TARGETS = ["Tx3Proofs.C07", "Tx3Proofs.C07Reduce", "Tx3Proofs.C07Confluence"]
+AUDIT_MODULES = ["Tx3Proofs.C07", "Tx3Proofs.C07Reduce", "Tx3Proofs.C07Confluence"]
 THEOREMS = [
     "Tx3.Expr.C07_args_fees", "Tx3.Expr.C07_args_inputs", "Tx3.Expr.C07_fees_inputs",
     "Tx3.Stage.commute_expr", "Tx3.C07_apply_commute",
     "Tx3.reduce_nf", "Tx3.nf_fix", "Tx3.nf_fix_fuel", "Tx3.C07_reduce_idempotent", "Tx3.C07_reduce_stable",
     "Tx3.C07_reduce_not_idempotent_without_WF", "Tx3.C07_stages_preserve_WF", "Tx3.C07_reduce_preserves_WF",
+    "Tx3.reduce_sealed", "Tx3.confl_args", "Tx3.reduceF_det", "Tx3.confl_stage", "Tx3.Stage.isStage",
+    "Tx3.C07_reduce_commutes_with_stage", "Tx3.C07_reduce_then_stage", "Tx3.C07_two_stages", "Tx3.sealedb_Sealed",
 ]
 
 RULE = (
@@ -42,7 +51,7 @@ RULE = (
 )
 
 ASSUMPTIONS = [
-    "proved: the three substitution stages commute syntactically (all 6 orders give the identical tree); reduce is idempotent on well-formed templates and well-formedness is preserved by every stage; NOT proved: equality of final templates across schedules that place reduce differently, and the compiler pass - decided per case by exhaustive schedule exploration on the real crates (spec oracle) and by the model correspondence",
+    "proved: the three substitution stages commute syntactically (all 6 orders give the identical tree); reduce is idempotent on well-formed templates and well-formedness is preserved by every stage; proved: reduce commutes with each stage on expressions whenever the reductions succeed; NOT proved: error agreement across schedules, and the compiler pass - decided per case by exhaustive schedule exploration on the real crates (spec oracle) and by the model correspondence",
     "a schedule is admissible when every compiler op's operands are free of unresolved parameters at the moment the compiler stage runs",
     "canonical form sorts asset lists (their order comes out of a HashMap)",
 ]
